@@ -416,8 +416,11 @@ pub fn check_large(n: usize, seed: u64, evals: usize) -> Result<u64, Violation> 
     // constraints as lists of squares
     let mut terms = Vec::new();
     flatten_and(&parsed.ast, &mut terms);
+    // (another, equivalent encoding - disjunctions, pairwise exclusions - is evaluated point-wise
+    // through the reference semantics instead of the constraint index)
     let mut cons: Vec<(Vec<usize>, CntOp, u64)> = Vec::new();
-    for t in terms {
+    let mut plain_shape = true;
+    'terms: for t in terms {
         match t {
             RAst::True => {}
             RAst::CountConst(op, l, k) => {
@@ -425,13 +428,22 @@ pub fn check_large(n: usize, seed: u64, evals: usize) -> Result<u64, Violation> 
                 for f in l {
                     match f {
                         RAst::Var(name) => sq.push(name[2..].parse::<usize>().map_err(|_| v("HARNESS: variable name".into()))?),
-                        _ => return Err(v("HARNESS: unexpected operand shape on a large board".into())),
+                        _ => {
+                            plain_shape = false;
+                            break 'terms;
+                        }
                     }
                 }
                 cons.push((sq, *op, *k));
             }
-            _ => return Err(v("HARNESS: unexpected formula shape on a large board".into())),
+            _ => {
+                plain_shape = false;
+                break 'terms;
+            }
         }
+    }
+    if !plain_shape {
+        cons.clear();
     }
     // inverse index: square -> constraints mentioning it (boards are sparse: ~n queens)
     let mut sq2cons: Vec<Vec<u32>> = vec![Vec::new(); n * n];
@@ -458,7 +470,15 @@ pub fn check_large(n: usize, seed: u64, evals: usize) -> Result<u64, Violation> 
                 counts[*ci as usize] += 1;
             }
         }
-        let got = cons.iter().zip(counts.iter()).all(|((_, op, k), c)| op.holds(*c as i128, *k as i128));
+        let got = if plain_shape {
+            cons.iter().zip(counts.iter()).all(|((_, op, k), c)| op.holds(*c as i128, *k as i128))
+        } else {
+            let occupied: std::collections::HashSet<usize> = distinct.iter().map(|(r, c)| r * n + c).collect();
+            match rsem::eval_at(&parsed.ast, &|name: &str| name[2..].parse::<usize>().map(|k| occupied.contains(&k)).unwrap_or(false)) {
+                Ok(b) => b,
+                Err(e) => return Err(v(format!("SKIP: n={}: the emitted formula cannot be evaluated point-wise ({})", n, e))),
+            }
+        };
         if got != want {
             let shown: Vec<&(usize, usize)> = queens.iter().take(12).collect();
             return Err(v(format!(
